@@ -55,12 +55,13 @@ def circular_lon(repo, rep):
 def conventions(repo, rep):
     c = f"{SEL}.Coordinates"
     swap = repo.func(f"{c}._swap_longitude_convention")
-    cmps = [n for n in ast.walk(swap.node) if isinstance(n, ast.Compare) and len(n.ops) == 1 and repo.const(swap.module, n.comparators[0]) == 180]
+    from ..astutil import rel as _rel
+    cmps = [n for n in ast.walk(swap.node) if _rel(n, lambda e: repo.const(swap.module, e) == 180) is not None]
     if not cmps:
         raise AnalysisError("_swap_longitude_convention: comparison with 180 not found")
     # also comparisons hoisted into a local mask
     for n in cmps:
-        if isinstance(n.ops[0], ast.Gt):
+        if _rel(n, lambda e: repo.const(swap.module, e) == 180)[1] == "<":      # 180 < longitude
             rep.ok("R-C14-6", f"{swap.file}:{n.lineno} _swap_longitude_convention", unparse(n), "only longitudes strictly beyond 180 move to the negative half")
         else:
             rep.fail("R-C14-6", swap.file, n.lineno, swap.qualname, unparse(n),
@@ -74,8 +75,9 @@ def conventions(repo, rep):
         fi = repo.func(f"{c}.{name}")
         got = []
         for n in ast.walk(fi.node):
-            if isinstance(n, ast.Compare) and len(n.ops) == 1 and isinstance(n.left, ast.Call) and isinstance(n.left.func, ast.Attribute):
-                got.append((n.left.func.attr, type(n.ops[0]).__name__, repo.const(fi.module, n.comparators[0])))
+            r_ = _rel(n, lambda e: isinstance(e, ast.Call) and isinstance(e.func, ast.Attribute) and e.func.attr in ("min", "max"))
+            if r_ is not None:
+                got.append((r_[0].func.attr, {">=": "GtE", "<=": "LtE", ">": "Gt", "<": "Lt", "==": "Eq", "!=": "NotEq"}[r_[1]], repo.const(fi.module, r_[2])))
         if sorted(got) == sorted(want):
             rep.ok("R-C14-6", f"{fi.file}:{fi.node.lineno} {name}", " and ".join(f"{a}() {b} {c_}" for a, b, c_ in got), "convention detector as documented")
         else:
@@ -103,13 +105,14 @@ def bbox_bounds(repo, rep):
         raise AnalysisError("sel_bbox: min/max +- tolerance bounds not found")
     n_cmp = 0
     for n in ast.walk(fi.node):
-        if isinstance(n, ast.Compare) and len(n.ops) == 1 and isinstance(n.comparators[0], ast.Name):
-            b = n.comparators[0].id
-            if b not in lo | hi:
-                continue
+        from ..astutil import rel as _rel
+        r_ = _rel(n, lambda e: isinstance(e, ast.Name) and e.id in lo | hi)
+        if r_ is not None:
+            # relation of the COORDINATE with respect to the bound
+            b = r_[0].id
             n_cmp += 1
-            op = type(n.ops[0])
-            coord = "lon" if "lon" in unparse(n.left) else "lat"
+            op = {"<": ast.Gt, "<=": ast.GtE, ">": ast.Lt, ">=": ast.LtE}.get(r_[1], ast.Eq)
+            coord = "lon" if "lon" in unparse(r_[2]) else "lat"
             wrapped = any(isinstance(i_, ast.If) and "_is_360" in unparse(i_.test) and any(n is x for o in i_.orelse for x in ast.walk(o)) for i_ in ast.walk(fi.node))
             opn = {ast.GtE: ">=", ast.Gt: ">", ast.LtE: "<=", ast.Lt: "<"}.get(op, op.__name__)
             anchor = f"sel_bbox:{'wrapped' if wrapped else 'plain'}:{coord}{opn}{'upper' if b in hi else 'lower'}"
@@ -224,7 +227,7 @@ def idw(repo, rep):
     cond = masks[0].test
     ct = unparse(cond).replace(" ", "")
     has_empty = f"len({I})==0" in ct or f"not{I}" in ct
-    has_single = (f"len({I})==1" in ct) and (f"{dist}>0" in ct or f"{dist}!=0" in ct)
+    has_single = (f"len({I})==1" in ct) and (f"{dist}>0" in ct or f"0<{dist}" in ct or f"{dist}!=0" in ct)
     if has_empty and has_single and isinstance(cond, ast.BoolOp) and isinstance(cond.op, ast.Or):
         rep.ok("R-C14-4", f"{fi.file}:{masks[0].lineno} sel_idw", unparse(cond), "missing iff no neighbour, or a single neighbour that is not the query point itself")
     else:
@@ -246,7 +249,7 @@ def idw(repo, rep):
                  if isinstance(b_.op, ast.Mult) and S and unparse(b_.value) == S]
     if S and (scal or unguarded):
         g = unparse(scal[0][0].test).replace(" ", "") if scal else "True"
-        if g in (f"len({I})>0", f"len({I})>=1", f"{I}", "True"):
+        if g in (f"len({I})>0", f"len({I})>=1", f"0<len({I})", f"1<=len({I})", f"{I}", "True"):
             rep.ok("R-C14-4", f"{fi.file}:{masks[0].lineno} sel_idw", "weighted *= 1/sum(factors) when more than one term", "convex combination")
         else:
             rep.fail("R-C14-4", fi.file, fi.node.lineno, fi.qualname, f"normalisation guard '{g}'", "the weighted sum must be normalised by 1/sum(factors) whenever more than one station contributes",
@@ -268,7 +271,7 @@ def tolerance(repo, rep):
         raise AnalysisError("sel_nearest: (id, distance) = coords.nearest(...) not found")
     app = [i for i, s in enumerate(loop.body) if isinstance(s, ast.Expr) and isinstance(s.value, ast.Call) and isinstance(s.value.func, ast.Attribute)
            and s.value.func.attr == "append" and [unparse(a_) for a_ in s.value.args] == [cid]]
-    tol = [i for i, s in enumerate(loop.body) if isinstance(s, ast.If) and unparse(s.test).replace(" ", "") in (f"{cdist}>tolerance", f"tolerance<{cdist}")]
+    tol = [i for i, s in enumerate(loop.body) if isinstance(s, ast.If) and unparse(s.test).replace(" ", "") in (f"{cdist}>tolerance", f"tolerance<{cdist}")]   # E0 stores the second form
     if not tol or not app or tol[0] > app[0]:
         rep.fail("R-C14-5", fi.file, loop.lineno, fi.qualname, "tolerance test", "a nearest station farther than the tolerance must raise (or be skipped) BEFORE it is selected")
     else:
